@@ -113,7 +113,7 @@ PROPS = {
         level_note=_CHAIN_NOTE,
     ),
     "C02": dict(
-        tie=["Ucan.Props.Tie.CommandCovers", "Ucan.Props.Tie.ChainProofs"],
+        tie=["Ucan.Props.Tie.CommandCovers", "Ucan.Props.Tie.ChainProofs", "Ucan.Props.Tie.ChainOrder"],
         props_module="Ucan.Props.C02",
         streams=["chain"],
         filter=_chain_filter(clauses=["command"]),
